@@ -71,6 +71,8 @@ func main() {
 		cmdCheck(os.Args[2:], false)
 	case "ledger":
 		cmdCheck(os.Args[2:], true)
+	case "names":
+		cmdNames(os.Args[2:])
 	default:
 		fmt.Fprintln(os.Stderr, "unknown command", os.Args[1])
 		os.Exit(2)
@@ -170,6 +172,7 @@ func cmdRun(args []string) {
 	mut := fs.String("mut", "", "in-memory mutation: relpath::old::new (first occurrence)")
 	_ = fs.Parse(args)
 	E := NewEngine(*repo)
+	E.names = loadNames(verifRoot())
 	if *mut != "" {
 		parts := strings.SplitN(*mut, "::", 3)
 		path := filepath.Join(*repo, parts[0])
@@ -288,6 +291,7 @@ func cmdCheck(args []string, writeLedger bool) {
 		timeout = 60
 	}
 	E := NewEngine(*repo)
+	E.names = loadNames(verifRoot())
 	frs, err := gather(E, cfg.Packages, prop, "")
 	violations := 0
 	replayDir := filepath.Join(root, "replay", prop)
@@ -304,6 +308,10 @@ func cmdCheck(args []string, writeLedger bool) {
 	}
 	scratch := scratchDir()
 	defer os.RemoveAll(scratch)
+	nameRepairsOut = append(nameRepairsOut, E.nameRepairs...)
+	for _, r := range E.nameRepairs {
+		fmt.Println("NOTE name-repair:", r)
+	}
 	var all []*Obligation
 	byName := map[string]*Obligation{}
 	for _, fr := range frs {
@@ -545,6 +553,9 @@ func writeJSON(path string, v interface{}) {
 	_ = os.WriteFile(path, append(b, '\n'), 0o644)
 }
 
+// nameRepairsOut: contract clauses re-read with renamed identifiers in this run (names.go); empty on the pinned tree
+var nameRepairsOut = []string{}
+
 func writeEvidence(root, prop, tier string, seed int, frs []*FuncResult, all []*Obligation, cfg PropCfg, wall float64, violations int, bounded []map[string]interface{}, discharged int) {
 	var ledgerNames map[string]bool
 	if lb, err := os.ReadFile(filepath.Join(root, "ledger", prop+".json")); err == nil {
@@ -637,6 +648,7 @@ func writeEvidence(root, prop, tier string, seed int, frs []*FuncResult, all []*
 		"slowest":                  slowest,
 		"generated_not_in_ledger":  notLedger,
 		"abstracted_constructs":    abs,
+		"name_repairs":             nameRepairsOut,
 		"not_decided":              cfg.NotDecided,
 		"bounded_checks":           bounded,
 	}
